@@ -48,6 +48,30 @@ fn site3() -> (FuncPtr, CallCountVerifier) {
     injectorpp::fake!(func_type: fn(a: u64, out: &mut u64) -> u64, when: a >= WHEN_MIN.load(SeqCst), assign: { *out = a + 3 }, returns: a, times: TIMES[3].load(SeqCst))
 }
 
+// Fakes without `times:` (one line of source each): installed before the counted one in the same
+// injector (`tt_c`), or on top of it (the counted fake's own target).
+static TIMES_R: [AtomicUsize; 4] = [AtomicUsize::new(0), AtomicUsize::new(0), AtomicUsize::new(0), AtomicUsize::new(0)];
+#[inline(never)]
+pub fn tt_c(a: u64) -> u64 {
+    black_box(a ^ 2)
+}
+fn usite_c() -> (FuncPtr, CallCountVerifier) {
+    injectorpp::fake!(func_type: fn(a: u64) -> u64, returns: a + 500)
+}
+/// the fake that supersedes the counted one on its own target: uncounted or counted
+fn refake_pair(site: u8, counted: bool) -> (FuncPtr, CallCountVerifier) {
+    match (site % N_SITES, counted) {
+        (0, false) => injectorpp::fake!(func_type: fn(a: u64) -> u64, returns: a + 1000),
+        (1, false) => injectorpp::fake!(func_type: fn(a: u64) -> u64, returns: a + 1000),
+        (2, false) => injectorpp::fake!(func_type: fn(a: u64) -> (), assign: { let _ = a; UNIT_HITS.fetch_add(100, SeqCst); }),
+        (_, false) => injectorpp::fake!(func_type: fn(a: u64, out: &mut u64) -> u64, assign: { *out = a + 5 }, returns: a + 1000),
+        (0, true) => injectorpp::fake!(func_type: fn(a: u64) -> u64, returns: a + 1000, times: TIMES_R[0].load(SeqCst)),
+        (1, true) => injectorpp::fake!(func_type: fn(a: u64) -> u64, returns: a + 1000, times: TIMES_R[1].load(SeqCst)),
+        (2, true) => injectorpp::fake!(func_type: fn(a: u64) -> (), assign: { let _ = a; UNIT_HITS.fetch_add(100, SeqCst); }, times: TIMES_R[2].load(SeqCst)),
+        (_, true) => injectorpp::fake!(func_type: fn(a: u64, out: &mut u64) -> u64, assign: { *out = a + 5 }, returns: a + 1000, times: TIMES_R[3].load(SeqCst)),
+    }
+}
+
 pub const N_SITES: u8 = 4;
 
 #[derive(Serialize, Deserialize, Clone, Debug, Hash, PartialEq, Eq)]
@@ -58,6 +82,19 @@ pub struct TLife {
     pub calls: Vec<bool>,
     pub threads: u8,
     pub exit_unwind: bool,
+    /// a second counted fake (another site, another target) installed in the same lifetime:
+    /// (site, n, number of matching calls made to it)
+    #[serde(default)]
+    pub second: Option<(u8, u8, u8)>,
+    /// an uncounted `fake!` is installed on another function through the same injector *before*
+    /// the counted one
+    #[serde(default)]
+    pub pre_uncounted: bool,
+    /// after the calls, the counted fake's function is faked again through the same injector:
+    /// (counted?, n2, number of calls made to the superseding fake).  The superseded fake keeps
+    /// its expectation: it was installed with `times: n` and received k calls.
+    #[serde(default)]
+    pub refake: Option<(bool, u8, u8)>,
 }
 
 #[derive(Serialize, Deserialize, Clone, Debug, Hash, PartialEq, Eq)]
@@ -80,6 +117,13 @@ pub struct CallOut {
 
 #[derive(Serialize, Deserialize, Clone, Debug, Default)]
 pub struct TLifeObs {
+    /// outcomes of the calls to the second counted fake, if any
+    #[serde(default)]
+    pub second_outcomes: Vec<CallOut>,
+    #[serde(default)]
+    pub refake_outcomes: Vec<CallOut>,
+    #[serde(default)]
+    pub pre_value: Option<u64>,
     pub install_panic: Option<String>,
     /// single-threaded: in call order; multi-threaded: per thread, concatenated
     pub outcomes: Vec<CallOut>,
@@ -91,6 +135,13 @@ pub struct TLifeObs {
 #[derive(Serialize, Deserialize, Clone, Debug, Default)]
 pub struct TimesObs {
     pub lifetimes: Vec<TLifeObs>,
+}
+
+/// the second counted fake lives on another site/target than the first
+pub fn second_site(first: u8, raw: u8) -> u8 {
+    let f = first % N_SITES;
+    let s = raw % N_SITES;
+    if s == f { (s + 1) % N_SITES } else { s }
 }
 
 fn has_when(site: u8) -> bool {
@@ -126,7 +177,7 @@ fn do_call(site: u8, matching: bool, i: u64) -> CallOut {
 pub fn execute(c: &TimesCase) -> TimesObs {
     let mut o = TimesObs::default();
     ip::plan_reset();
-    let addrs = [tt_a as fn(u64) -> u64 as usize, tt_b as fn(u64) -> u64 as usize, tt_unit as fn(u64) as usize, tt_out as fn(u64, &mut u64) -> u64 as usize];
+    let addrs = [tt_a as fn(u64) -> u64 as usize, tt_b as fn(u64) -> u64 as usize, tt_unit as fn(u64) as usize, tt_out as fn(u64, &mut u64) -> u64 as usize, tt_c as fn(u64) -> u64 as usize];
     let pristine: Vec<Vec<u8>> = addrs.iter().map(|a| crate::mem::read_direct(*a, 16)).collect();
     let build = |site: u8| match site % N_SITES {
         0 => site0(),
@@ -150,6 +201,9 @@ pub fn execute(c: &TimesCase) -> TimesObs {
         let r = std::panic::catch_unwind(std::panic::AssertUnwindSafe(|| {
             ip::sut(|| {
                 let mut inj = InjectorPP::new();
+                if l.pre_uncounted {
+                    inj.when_called(injectorpp::func!(fn (tt_c)(u64) -> u64)).will_execute(usite_c());
+                }
                 let pair = pair.unwrap_or_else(|| build(site));
                 match site {
                     0 => inj.when_called(injectorpp::func!(fn (tt_a)(u64) -> u64)).will_execute(pair),
@@ -157,10 +211,21 @@ pub fn execute(c: &TimesCase) -> TimesObs {
                     2 => inj.when_called(injectorpp::func!(fn (tt_unit)(u64))).will_execute(pair),
                     _ => inj.when_called(injectorpp::func!(fn (tt_out)(u64, &mut u64) -> u64)).will_execute(pair),
                 }
+                if let Some((s2, n2, _)) = l.second {
+                    let s2 = second_site(site, s2);
+                    TIMES[s2 as usize].store(n2 as usize, SeqCst);
+                    let p2 = build(s2);
+                    match s2 {
+                        0 => inj.when_called(injectorpp::func!(fn (tt_a)(u64) -> u64)).will_execute(p2),
+                        1 => inj.when_called(injectorpp::func!(fn (tt_b)(u64) -> u64)).will_execute(p2),
+                        2 => inj.when_called(injectorpp::func!(fn (tt_unit)(u64))).will_execute(p2),
+                        _ => inj.when_called(injectorpp::func!(fn (tt_out)(u64, &mut u64) -> u64)).will_execute(p2),
+                    }
+                }
                 inj
             })
         }));
-        let inj = match r {
+        let mut inj = match r {
             Ok(i) => i,
             Err(_) => {
                 lo.install_panic = Some(crate::worker::last_panic());
@@ -169,6 +234,9 @@ pub fn execute(c: &TimesCase) -> TimesObs {
             }
         };
         crate::worker::phase("calls");
+        if l.pre_uncounted {
+            lo.pre_value = std::panic::catch_unwind(|| tt_c(11)).ok();
+        }
         let nthreads = l.threads.clamp(1, 16) as usize;
         if nthreads == 1 {
             for (i, m) in l.calls.iter().enumerate() {
@@ -197,6 +265,34 @@ pub fn execute(c: &TimesCase) -> TimesObs {
             });
             for v in outs {
                 lo.outcomes.extend(v);
+            }
+        }
+        if let Some((s2, _n2, k2)) = l.second {
+            let s2 = second_site(site, s2);
+            for i in 0..k2 {
+                lo.second_outcomes.push(do_call(s2, true, 100 + i as u64));
+            }
+        }
+        if let Some((counted, n2, k2)) = l.refake {
+            crate::worker::phase("refake");
+            TIMES_R[site as usize].store(n2 as usize, SeqCst);
+            let r = std::panic::catch_unwind(std::panic::AssertUnwindSafe(|| {
+                ip::sut(|| {
+                    let p = refake_pair(site, counted);
+                    match site {
+                        0 => inj.when_called(injectorpp::func!(fn (tt_a)(u64) -> u64)).will_execute(p),
+                        1 => inj.when_called(injectorpp::func!(fn (tt_b)(u64) -> u64)).will_execute(p),
+                        2 => inj.when_called(injectorpp::func!(fn (tt_unit)(u64))).will_execute(p),
+                        _ => inj.when_called(injectorpp::func!(fn (tt_out)(u64, &mut u64) -> u64)).will_execute(p),
+                    }
+                })
+            }));
+            if r.is_err() {
+                lo.install_panic = Some(format!("re-fake: {}", crate::worker::last_panic()));
+            } else {
+                for i in 0..k2 {
+                    lo.refake_outcomes.push(do_call(site, true, 200 + i as u64));
+                }
             }
         }
         crate::worker::phase("drop");
@@ -228,7 +324,11 @@ pub fn execute(c: &TimesCase) -> TimesObs {
 
 pub fn strategy(c07_bias: bool) -> impl Strategy<Value = TimesCase> {
     let n = prop_oneof![6 => 0u16..=8, 1 => Just(64u16), 1 => Just(300u16)];
-    let life = (0u8..N_SITES, n, 0u16..=12, any::<u64>(), prop_oneof![2 => Just(1u8), 1 => 2u8..=16], prop::bool::weighted(0.2), 0u8..4).prop_map(|(site, n, extra_sel, pattern, threads, exit_unwind, nonmatching)| {
+    let second = prop::option::weighted(if c07_bias { 0.05 } else { 0.3 }, (0u8..N_SITES, 0u8..4, 0u8..5));
+    let extras = (prop::bool::weighted(0.3), prop::option::weighted(if c07_bias { 0.1 } else { 0.3 }, (any::<bool>(), 0u8..4, 0u8..5, any::<bool>())));
+    let life = (0u8..N_SITES, n, 0u16..=12, any::<u64>(), prop_oneof![2 => Just(1u8), 1 => 2u8..=16], prop::bool::weighted(0.2), 0u8..4, second, extras).prop_map(|(site, n, extra_sel, pattern, threads, exit_unwind, nonmatching, second, (pre_uncounted, refake))| {
+        // half of the superseding counted fakes are exactly satisfied
+        let refake = refake.map(|(counted, n2, k2, exact)| (counted, n2, if exact && counted { n2 } else { k2 }));
         // k in 0..=n+2 matching calls, j non-matching ones interleaved by `pattern`
         let k = ((extra_sel as u32 * (n as u32 + 3)) / 13) as usize;
         let k = k.min(n as usize + 2);
@@ -238,7 +338,7 @@ pub fn strategy(c07_bias: bool) -> impl Strategy<Value = TimesCase> {
             let pos = ((pattern >> (x * 8)) as usize) % (calls.len() + 1);
             calls.insert(pos, false);
         }
-        TLife { site, n, calls, threads, exit_unwind }
+        TLife { site, n, calls, threads, exit_unwind, second, pre_uncounted, refake }
     });
     let count = if c07_bias { 2usize..=8 } else { 1usize..=3 };
     (prop::collection::vec(life, count), 0u8..N_SITES, prop::bool::weighted(if c07_bias { 0.8 } else { 0.3 }), prop::bool::weighted(if c07_bias { 0.35 } else { 0.1 })).prop_map(|(mut lifetimes, site, same_site, prebuilt)| {
@@ -292,6 +392,9 @@ pub fn judge(rec: &mut Recorder, c: &TimesCase, ex: Exec, _hello: &Value) -> Res
         if let Some(p) = &lo.install_panic {
             return rec.fail(&sig("install-refused"), ctx(&format!("installation panicked: {p}")));
         }
+        if l.pre_uncounted && lo.pre_value != Some(511) {
+            return rec.fail(&sig("uncounted-fake-not-in-effect"), ctx(&format!("the uncounted fake installed first returned {:?} for 11, it yields 511", lo.pre_value)));
+        }
         let matching: Vec<&CallOut> = lo.outcomes.iter().filter(|x| x.matching).collect();
         let non: Vec<&CallOut> = lo.outcomes.iter().filter(|x| !x.matching).collect();
         let k = matching.len();
@@ -328,18 +431,58 @@ pub fn judge(rec: &mut Recorder, c: &TimesCase, ex: Exec, _hello: &Value) -> Res
                 return rec.fail(&sig("admitted-call-wrong-result"), ctx(&format!("call a={} returned {:?} (side effect {:?}), the fake yields {want:?}", x.arg, x.value, x.side)));
             }
         }
+        // the second counted fake of the same lifetime
+        let mut k2n2: Option<(usize, usize)> = None;
+        if let Some((_s2, n2, _)) = l.second {
+            let n2 = n2 as usize;
+            let k2 = lo.second_outcomes.len();
+            let ok2 = lo.second_outcomes.iter().filter(|x| x.panic.is_none()).count();
+            if ok2 != k2.min(n2) {
+                return rec.fail(&sig("admitted-count-wrong/second-counted-fake"), ctx(&format!("second counted fake (times: {n2}): {ok2} of {k2} matching calls returned normally, exactly {} must", k2.min(n2))));
+            }
+            k2n2 = Some((k2, n2));
+        }
+        let second_unmet = k2n2.map(|(k2, n2)| k2 != n2).unwrap_or(false);
+        // the fake that superseded the counted one on its own function
+        let mut k3n3: Option<(usize, usize)> = None;
+        if let Some((counted, n3, _)) = l.refake {
+            let n3 = n3 as usize;
+            let k3 = lo.refake_outcomes.len();
+            let ok3: Vec<&CallOut> = lo.refake_outcomes.iter().filter(|x| x.panic.is_none()).collect();
+            let want_ok = if counted { k3.min(n3) } else { k3 };
+            if ok3.len() != want_ok {
+                return rec.fail(&sig("admitted-count-wrong/superseding-fake"), ctx(&format!("fake installed on top of the counted one ({}): {} of {k3} calls returned normally, exactly {want_ok} must", if counted { format!("times: {n3}") } else { "no times".into() }, ok3.len())));
+            }
+            for x in &ok3 {
+                let bad = match site {
+                    2 => false,
+                    3 => x.value != Some(x.arg + 1000) || x.side != Some(x.arg + 5),
+                    _ => x.value != Some(x.arg + 1000),
+                };
+                if bad {
+                    return rec.fail(&sig("superseding-fake-not-in-effect"), ctx(&format!("after re-faking, call a={} returned {:?} (side effect {:?}); the most recent fake yields a+1000", x.arg, x.value, x.side)));
+                }
+            }
+            if counted {
+                k3n3 = Some((k3, n3));
+            }
+        }
+        let third_unmet = k3n3.map(|(k3, n3)| k3 != n3).unwrap_or(false);
         // exit verdict
         if l.exit_unwind {
             if lo.panics_at_exit != 1 {
                 return rec.fail(&sig("double-panic-while-unwinding"), ctx(&format!("{} panics were raised while the scope was left by unwinding (exactly the user's one is allowed)", lo.panics_at_exit)));
             }
         } else {
-            match (&lo.exit_panic, k != n) {
-                (None, true) => return rec.fail(&sig(&format!("exit-verification-missed/{which}")), ctx(&format!("{k} matching calls were made against times: {n} but scope exit did not panic"))),
-                (Some(p), false) => return rec.fail(&sig(&format!("exit-verification-false-alarm/{which}")), ctx(&format!("exactly {n} matching calls were made but scope exit panicked: {p}"))),
+            match (&lo.exit_panic, k != n || second_unmet || third_unmet) {
+                (None, true) => return rec.fail(&sig(&format!("exit-verification-missed/{which}")), ctx(&format!("{k} matching calls were made against times: {n} (second counted fake: {k2n2:?} calls/times; counted fake installed on top of the first: {k3n3:?}; re-fake: {:?}) but scope exit did not panic", l.refake))),
+                (Some(p), false) => return rec.fail(&sig(&format!("exit-verification-false-alarm/{which}")), ctx(&format!("exactly {n} matching calls were made (second counted fake: {k2n2:?}, superseding counted fake: {k3n3:?}) but scope exit panicked: {p}"))),
                 (Some(p), true) => {
                     let nums: Vec<String> = p.split(|ch: char| !ch.is_ascii_digit()).filter(|s| !s.is_empty()).map(|s| s.to_string()).collect();
-                    if !nums.contains(&n.to_string()) || !nums.contains(&k.to_string()) {
+                    let names_first = k != n && nums.contains(&n.to_string()) && nums.contains(&k.to_string());
+                    let names_second = second_unmet && k2n2.map(|(k2, n2)| nums.contains(&n2.to_string()) && nums.contains(&k2.to_string())).unwrap_or(false);
+                    let names_third = third_unmet && k3n3.map(|(k3, n3)| nums.contains(&n3.to_string()) && nums.contains(&k3.to_string())).unwrap_or(false);
+                    if !(names_first || names_second || names_third) {
                         return rec.fail(&sig("exit-message-lacks-numbers"), ctx(&format!("exit panic message {p:?} does not name both the expected count {n} and the actual count {k}")));
                     }
                     if lo.panics_at_exit != 1 {
@@ -360,8 +503,17 @@ pub fn judge(rec: &mut Recorder, c: &TimesCase, ex: Exec, _hello: &Value) -> Res
         if c.prebuilt && repeated_site {
             rec.class("prebuilt-table/site-reused-after-calls");
         }
+        if l.pre_uncounted {
+            rec.class(if repeated_site { "uncounted-fake-first/site-reused-after-calls" } else { "uncounted-fake-first" });
+        }
+        if let Some((counted, _, _)) = l.refake {
+            rec.class(&format!("superseded-by-{}/first-{}", if counted { if third_unmet { "counted-unmet" } else { "counted-met" } } else { "uncounted" }, if k == n { "met" } else { "unmet" }));
+        }
+        if l.second.is_some() {
+            rec.class(if second_unmet { "two-counted-fakes/second-unmet" } else { "two-counted-fakes/second-met" });
+        }
         rec.class(&format!("site{site}/{}{}{}", if l.threads > 1 { "threads>=2" } else { "1-thread" }, if k > n { "/over-called" } else if k < n { "/under-called" } else { "/exact" }, if repeated_site { "/site-reused-after-calls" } else { "" }));
-        let nontrivial = if prop == "C07" { repeated_site } else { k >= 1 && (k > n || !non.is_empty() || l.threads >= 2) };
+        let nontrivial = if prop == "C07" { repeated_site } else { (k >= 1 && (k > n || !non.is_empty() || l.threads >= 2)) || l.second.is_some() || l.refake.is_some() };
         if nontrivial {
             rec.nontrivial(&(li, l, repeated_site));
         }
